@@ -51,10 +51,10 @@ func c03payload(g, i, l int) string {
 }
 
 type c03setup struct {
-	name   string
-	cfg    map[string]string // nil: built-in logger, no Refresh
-	sinks  []string          // "console", "file:<path>", "rolldir:<dir>:<name>"
-	perEv  int               // lines per event and sink (1)
+	name  string
+	cfg   map[string]string // nil: built-in logger, no Refresh
+	sinks []string          // "console", "file:<path>", "rolldir:<dir>:<name>"
+	perEv int               // lines per event and sink (1)
 }
 
 func c03setups(dir string) []c03setup {
